@@ -140,6 +140,25 @@ theorem unnormalised_add_is_wrong :
 theorem min_div_minus_one_traps :
     exec [canon ⟨32, true⟩ (-2147483648), canon ⟨32, true⟩ (-1)] [] [⟨.w, "div", .param 0, .param 1⟩] = none := by decide
 
+/-! #### values that go through memory (struct fields, array elements, copies)
+
+`Gen.qbeMem`: for each integer type, the store instruction the current compiler emits for a parameter stored into a struct field and
+the load instruction whose result it returns for reading that field back. -/
+
+theorem mem_table_known_shapes : ∀ r ∈ Gen.qbeMem, memRowOk r = true := by decide +kernel
+
+theorem mem_table_complete : ∀ t ∈ legalTys, Gen.qbeMem.any (fun r => r.ty == t) = true := by decide +kernel
+
+/-- for every row of the regenerated table and every in-range value: store, then load, gives back the canonical temporary -/
+theorem mem_table_correct (r : MemRow) (hr : r ∈ Gen.qbeMem) (hl : r.ty ∈ legalTys) (v : Int) (hv : r.ty.inRange v) :
+    (memStore r.store (canon r.ty v)).bind (memLoad r.cls r.load) = some (canon r.ty v) := by
+  have hok := mem_table_known_shapes r hr
+  simp only [memRowOk, Bool.and_eq_true, beq_iff_eq] at hok
+  obtain ⟨h1, h2⟩ := hok
+  have := mem_roundtrip r.ty hl v hv
+  rw [← h1] at this
+  rw [h2]; exact this
+
 end Selection
 
 end FerretVerif.C01
